@@ -101,12 +101,16 @@ func drawConfig(t *rapid.T, o simOpts) sim.Config {
 	}
 	// an election (or a sync) handled by the main loop while the worker of one node sits in a consumer call
 	intOneIn := 6
-	if o.Focus == "C15" {
+	if o.Focus == "C15" || o.Focus == "C17" {
 		intOneIn = 1
 	}
 	if o.Focus != "C05" && rapid.IntRange(0, intOneIn).Draw(t, "interrupt?") == 0 {
-		cfg.Interrupt = &sim.Interrupt{Node: rapid.IntRange(0, n-1).Draw(t, "int-node"), Kind: rapid.SampledFrom([]string{"validate", "validate", "propose", "commit"}).Draw(t, "int-kind"),
-			Nth: rapid.IntRange(1, 3).Draw(t, "int-nth"), Event: rapid.SampledFrom([]string{"trigger", "trigger", "trigger", "sync"}).Draw(t, "int-event"), GiveUp: rapid.Bool().Draw(t, "int-giveup"), Delay: rapid.SampledFrom([]int{0, 0, 1, 2, 4}).Draw(t, "int-delay")}
+		kinds, events := []string{"validate", "validate", "propose", "commit"}, []string{"trigger", "trigger", "trigger", "sync"}
+		if o.Focus == "C17" { // the height hand-over is what matters there: syncs that land while the node commits
+			kinds, events = []string{"commit", "commit", "validate", "propose"}, []string{"sync", "sync", "trigger"}
+		}
+		cfg.Interrupt = &sim.Interrupt{Node: rapid.IntRange(0, n-1).Draw(t, "int-node"), Kind: rapid.SampledFrom(kinds).Draw(t, "int-kind"),
+			Nth: rapid.IntRange(1, 3).Draw(t, "int-nth"), Event: rapid.SampledFrom(events).Draw(t, "int-event"), GiveUp: rapid.Bool().Draw(t, "int-giveup"), Delay: rapid.SampledFrom([]int{0, 0, 1, 2, 4}).Draw(t, "int-delay")}
 	}
 	// (not for C05: a failing transport loses messages, which the timely suffix of that property excludes)
 	if o.Focus != "C05" && rapid.IntRange(0, 7).Draw(t, "sendfail?") == 0 { // a transport that fails half way through a broadcast and says so
